@@ -41,8 +41,10 @@ type Conn struct {
 	tdsChannelsLock     *sync.RWMutex
 	errCh               chan error
 
-	// packetSize is the negotiated packet size
-	packetSize int
+	// packetSize is the negotiated packet size. It is written by the
+	// reader goroutine when the server announces a new size and read by
+	// every sender - access it atomically.
+	packetSize int64
 }
 
 // Dial returns a prepared and dialed Conn.
@@ -178,7 +180,12 @@ func (tds *Conn) Close() error {
 func (tds *Conn) PacketSize() int {
 	// Must be pointer-receive as it is passed to Channels to acquire
 	// the negotiated packet size.
-	return tds.packetSize
+	return int(atomic.LoadInt64(&tds.packetSize))
+}
+
+// setPacketSize stores the packet size announced by the server.
+func (tds *Conn) setPacketSize(packetSize int) {
+	atomic.StoreInt64(&tds.packetSize, int64(packetSize))
 }
 
 // PacketBodySize returns the negotiated packet size minus the packet
@@ -186,7 +193,7 @@ func (tds *Conn) PacketSize() int {
 func (tds *Conn) PacketBodySize() int {
 	// Must be pointer-receive as it is passed to Channels to acquire
 	// the negotiated packet size.
-	return tds.packetSize - PacketHeaderSize
+	return tds.PacketSize() - PacketHeaderSize
 }
 
 func (tds *Conn) getValidChannelId() (int, error) {
